@@ -546,6 +546,13 @@ func (w *World) writeOp(t *simcore.Task, wt *WTxn) bool {
 			return false
 		}
 	}
+	if len(wt.held) < 2 && c.Choose(6) == 0 {
+		hti := wt.tables[c.Choose(len(wt.tables))]
+		w.holdSequence(wt, hti, wt.staged[hti])
+		if w.S.Failed() {
+			return false
+		}
+	}
 	ti := wt.tables[c.Choose(len(wt.tables))]
 	if len(wt.held) > 0 && wt.locked(wt.held[0].ti) && c.Choose(4) != 0 {
 		ti = wt.held[0].ti // write under the held sequence
